@@ -81,7 +81,7 @@ def introspect_remote_schema(
             headers=headers,
             verify=verify_ssl,
         )
-    except httpx.InvalidURL as exc:
+    except (httpx.InvalidURL, httpx.UnsupportedProtocol) as exc:
         raise IntrospectionError(f"Invalid remote schema url: {url}") from exc
 
     if not response.is_success:
